@@ -4,6 +4,7 @@ import (
 	"bytes"
 	"errors"
 	"fmt"
+	"io"
 	"math/rand"
 	"net/http"
 	"net/http/httptest"
@@ -52,6 +53,11 @@ func (w *c06Writer) Write(b []byte) (int, error) {
 	*w.log = append(*w.log, L(I(2), I(k)))
 	return k, err
 }
+
+// ReadFrom: offered by net/http's response writer; whoever copies through it writes to the same sink
+func (w *c06Writer) ReadFrom(r io.Reader) (int64, error) {
+	return io.Copy(struct{ io.Writer }{w}, r)
+}
 func (w *c06Writer) Flush() {
 	w.flushes++
 	if w.status < 0 {
@@ -94,7 +100,7 @@ func genC06(rng *rand.Rand, n int, emit func(Case), dist map[string]int) {
 		hookID := 0
 		flushFirst := rng.Intn(4) == 0
 		for i := 0; i < nops; i++ {
-			kind := rng.Intn(14)
+			kind := rng.Intn(15)
 			if i == 0 && flushFirst {
 				kind = 2
 			}
@@ -251,6 +257,17 @@ func genC06(rng *rand.Rand, n int, emit func(Case), dist map[string]int) {
 				if wasCommitted {
 					nontriv = true
 				}
+			case 14:
+				// a payload streamed with io.Copy INTO the Response (the writer below offers ReadFrom, as net/http's does): it is a
+				// body write like any other - implicit 200, counted, hooks run
+				if size == 0 {
+					size = 1
+				}
+				w.accept = acc
+				io.Copy(resp, io.LimitReader(bytes.NewReader(make([]byte, size)), int64(size)))
+				ops = append(ops, L(I(1), I(bodyK(size))))
+				human = append(human, fmt.Sprintf("io.Copy(%d bytes, writer accepts %d)", size, acc))
+				dist["io_copy_into_response"]++
 			default:
 				c.Redirect(code, "/target")
 				ops = append(ops, L(I(8), I(code)))
